@@ -120,7 +120,7 @@ CLAIMS['C06'] = ('bounded symbolic execution (CrossHair/z3) with solver-chosen i
 
 CLAIMS['C08'] = ('bounded model checking over call histories with the solver (CrossHair/z3) choosing history, probe and sharing pattern; real expand() calls, '
                  'snapshots of caller objects and of module-level state',
-                 'Every history of up to K calls from a 12-call menu (markup/stylesheet, raising calls, wrap text, BEM, scopes, user snippets, '
+                 'Every history of up to K calls from a 16-call menu (markup/stylesheet, raising calls, wrap text, BEM, scopes, user snippets, '
                  'different units) followed by every probe, with and without a shared cache, with caller configs re-used as dict or Config: the '
                  'probe equals its pristine result, re-used configs keep giving their pristine result, caller dictionaries and every mutable '
                  'module-level container / function default of emmet.* are unchanged.', '§3 C08')
